@@ -124,21 +124,6 @@ def CoreArg.lenOk (a : CoreArg) : Prop :=
   | .v (.str s) => s.toList.length < Usz.modulus
   | _ => True
 
-/-- The argument tuples on which the index arithmetic of `sublist3` and `substring` stays
-inside `usize` (elsewhere: findings F5, F5b, F20).  Everything else is unconstrained. -/
-def safeArgs (m : IntMode) (fn : String) (args : List CoreArg) : Bool :=
-  match fn, args with
-  | "sublist3", [.v (.list items), .v (.num p), .v (.num ln)] =>
-    match decodePos p, ln.toUsize? with
-    | some pos, some n =>
-      decide (pos.2 + n < Usz.modulus ∧ items.length + n < Usz.modulus ∧ (m = .checked → pos.1 = true → pos.2 ≤ items.length))
-    | _, _ => true
-  | "substring", [.v (.str s), .v (.num _), .v (.num len)] =>
-    match m, substringCount len with
-    | .checked, some c => decide (s.toList.length + c < Usz.modulus)
-    | _, _ => true
-  | _, _ => true
-
 theorem listResult_noPanic {o : Outcome (Option (List Value))} (h : ∃ r, o = .ok r) :
     ∃ v, listResult o = .ok v := by
   obtain ⟨r, rfl⟩ := h
@@ -192,8 +177,7 @@ theorem core_remove_ok (m : IntMode) (a b : Value) (hL : CoreArg.lenOk (.v a)) :
     · exact ⟨_, rfl⟩
   · exact ⟨_, rfl⟩
 
-theorem core_sublist3_ok (m : IntMode) (a b c : Value) (hL : CoreArg.lenOk (.v a))
-    (hs : safeArgs m "sublist3" [.v a, .v b, .v c] = true) :
+theorem core_sublist3_ok (m : IntMode) (a b c : Value) (hL : CoreArg.lenOk (.v a)) :
     ∃ v, core_sublist3 m a b c = .ok v := by
   unfold core_sublist3
   split
@@ -210,9 +194,8 @@ theorem core_sublist3_ok (m : IntMode) (a b c : Value) (hL : CoreArg.lenOk (.v a
           | none => exact ⟨_, rfl⟩
           | some pos =>
             obtain ⟨_, h2, h3⟩ := decodePos_sound hd
-            simp only [safeArgs, hd, hn, decide_eq_true_eq] at hs
             obtain ⟨b, i⟩ := pos
-            exact listResult_noPanic ⟨_, sublist3At_spec m items b i n h2 h3 hL hs⟩
+            exact listResult_noPanic ⟨_, sublist3At_spec m items b i n h2 h3 hL⟩
         · exact ⟨_, rfl⟩
     · exact ⟨_, rfl⟩
   · exact ⟨_, rfl⟩
@@ -222,57 +205,23 @@ theorem strResult_noPanic {o : Outcome (Option (List Char))} (h : ∃ r, o = .ok
   obtain ⟨r, rfl⟩ := h
   cases r <;> exact ⟨_, rfl⟩
 
-/-- without a length, and in a build without overflow checks, `substring` has no panicking
-operation at all -/
-theorem substringAt_ok (m : IntMode) (cs : List Char) (st : Int) (count : Option Nat)
-    (h : ∀ c, m = .checked → count = some c → cs.length + c < Usz.modulus) :
+/-- `substring` has no panicking operation: every branch of its index arithmetic is `ok` -/
+theorem substringAt_ok (m : IntMode) (cs : List Char) (st : Int) (count : Option Nat) :
     ∃ r, substringAt m cs st count = .ok r := by
   unfold substringAt
-  cases count with
-  | none => simp only; ok_cases
-  | some c =>
-    simp only
-    cases m with
-    | wrapping => unfold Usz.add; simp only; ok_cases
-    | checked =>
-      have hc := h c rfl rfl
-      split
-      · split
-        · rename_i h1 h2
-          rw [usz_add_ok .checked _ (by omega)]
-          simp only; ok_cases
-        · exact ⟨_, rfl⟩
-      · split
-        · split
-          · rename_i h1 h2 h3
-            rw [usz_add_ok .checked _ (by omega)]
-            simp only; ok_cases
-          · exact ⟨_, rfl⟩
-        · exact ⟨_, rfl⟩
+  cases count <;> (simp only; ok_cases)
 
-theorem core_substring_ok (m : IntMode) (a b c : Value)
-    (hs : safeArgs m "substring" [.v a, .v b, .v c] = true) :
-    ∃ v, core_substring m a b c = .ok v := by
+theorem core_substring_ok (m : IntMode) (a b c : Value) : ∃ v, core_substring m a b c = .ok v := by
   unfold core_substring
   split
-  · rename_i s
-    split
-    · rename_i sp
-      split
+  · split
+    · split
       · exact ⟨_, rfl⟩
-      · rename_i st _
-        split
-        · rename_i len
-          cases hc : substringCount len with
-          | none => exact ⟨_, rfl⟩
-          | some count =>
-            apply strResult_noPanic
-            apply substringAt_ok
-            intro c hm hcc
-            injection hcc with hcc
-            subst hcc hm
-            simpa [safeArgs, hc] using hs
-        · exact strResult_noPanic (substringAt_ok m _ _ none (by intro c _ h; cases h))
+      · split
+        · split
+          · exact ⟨_, rfl⟩
+          · exact strResult_noPanic (substringAt_ok m _ _ _)
+        · exact strResult_noPanic (substringAt_ok m _ _ _)
         · exact ⟨_, rfl⟩
     · exact ⟨_, rfl⟩
   · exact ⟨_, rfl⟩
@@ -319,75 +268,75 @@ theorem fnS_noPanic (f : List Value → Option (Outcome Value)) (h : ∀ xs, NoP
   · exact noPanic_none
 
 theorem coreTable_noPanic : ∀ e ∈ coreTable, ∀ (m : IntMode) (args : List CoreArg),
-    (∀ a ∈ args, CoreArg.lenOk a) → safeArgs m e.1 args = true → NoPanic (e.2 m args) := by
+    (∀ a ∈ args, CoreArg.lenOk a) → NoPanic (e.2 m args) := by
   simp only [coreTable, List.forall_mem_cons]
   refine ⟨?_, ?_, ?_, ?_, ?_, ?_, ?_, ?_, ?_, ?_, ?_, ?_, ?_, ?_, ?_, ?_, ?_, ?_, ?_, ?_, ?_, ?_, ?_, ?_, ?_,
     ?_, ?_, ?_, ?_, ?_, ?_, ?_, ?_, ?_, ?_, ?_, ?_, ?_⟩
   · -- substring
-    intro m args _ hs
+    intro m args _
     split
-    · exact noPanic_of_ok (core_substring_ok m _ _ _ hs)
+    · exact noPanic_of_ok (core_substring_ok m _ _ _)
     · exact noPanic_none
-  · intro m args _ _; exact fn1_noPanic _ (fun a => noPanic_of_ok (core_string_length_ok a)) m args
-  · intro m args _ _; exact fn2_noPanic _ (fun a b => noPanic_of_ok (core_contains_ok a b)) m args
-  · intro m args _ _; exact fn2_noPanic _ (fun a b => noPanic_of_ok (core_starts_with_ok a b)) m args
-  · intro m args _ _; exact fn2_noPanic _ (fun a b => noPanic_of_ok (core_ends_with_ok a b)) m args
-  · intro m args _ _; exact fn2_noPanic _ (fun a b => noPanic_of_ok (core_substring_before_ok a b)) m args
-  · intro m args _ _; exact fn2_noPanic _ (fun a b => noPanic_of_ok (core_substring_after_ok a b)) m args
-  · intro m args _ _; exact fn3_noPanic _ (fun a b c => map_ok_noPanic _) m args
+  · intro m args _; exact fn1_noPanic _ (fun a => noPanic_of_ok (core_string_length_ok a)) m args
+  · intro m args _; exact fn2_noPanic _ (fun a b => noPanic_of_ok (core_contains_ok a b)) m args
+  · intro m args _; exact fn2_noPanic _ (fun a b => noPanic_of_ok (core_starts_with_ok a b)) m args
+  · intro m args _; exact fn2_noPanic _ (fun a b => noPanic_of_ok (core_ends_with_ok a b)) m args
+  · intro m args _; exact fn2_noPanic _ (fun a b => noPanic_of_ok (core_substring_before_ok a b)) m args
+  · intro m args _; exact fn2_noPanic _ (fun a b => noPanic_of_ok (core_substring_after_ok a b)) m args
+  · intro m args _; exact fn3_noPanic _ (fun a b c => map_ok_noPanic _) m args
   · -- replace
-    intro m args _ _
+    intro m args _
     split
     · exact map_ok_noPanic _
     · exact noPanic_none
-  · intro m args _ _; exact fn2_noPanic _ (fun a b => map_ok_noPanic _) m args
-  · intro m args _ _; exact fn1_noPanic _ (fun a => noPanic_of_ok (core_count_ok a)) m args
-  · intro m args _ _; exact fnS_noPanic _ (fun xs => noPanic_of_ok (core_min_ok xs)) m args
-  · intro m args _ _; exact fnS_noPanic _ (fun xs => noPanic_of_ok (core_max_ok xs)) m args
-  · intro m args _ _; exact fnS_noPanic _ (fun xs => noPanic_of_ok (core_sum_ok xs)) m args
-  · intro m args _ _; exact fnS_noPanic _ (fun xs => noPanic_of_ok (core_mean_ok xs)) m args
-  · intro m args _ _; exact fnS_noPanic _ (fun xs => noPanic_of_ok (core_median_ok xs)) m args
-  · intro m args _ _; exact fnS_noPanic _ (fun xs => noPanic_of_ok (core_mode_ok xs)) m args
-  · intro m args _ _; exact fnS_noPanic _ (fun xs => noPanic_of_ok (core_stddev_ok xs)) m args
-  · intro m args _ _; exact fnS_noPanic _ (fun xs => noPanic_of_ok (core_all_ok xs)) m args
-  · intro m args _ _; exact fnS_noPanic _ (fun xs => noPanic_of_ok (core_any_ok xs)) m args
+  · intro m args _; exact fn2_noPanic _ (fun a b => map_ok_noPanic _) m args
+  · intro m args _; exact fn1_noPanic _ (fun a => noPanic_of_ok (core_count_ok a)) m args
+  · intro m args _; exact fnS_noPanic _ (fun xs => noPanic_of_ok (core_min_ok xs)) m args
+  · intro m args _; exact fnS_noPanic _ (fun xs => noPanic_of_ok (core_max_ok xs)) m args
+  · intro m args _; exact fnS_noPanic _ (fun xs => noPanic_of_ok (core_sum_ok xs)) m args
+  · intro m args _; exact fnS_noPanic _ (fun xs => noPanic_of_ok (core_mean_ok xs)) m args
+  · intro m args _; exact fnS_noPanic _ (fun xs => noPanic_of_ok (core_median_ok xs)) m args
+  · intro m args _; exact fnS_noPanic _ (fun xs => noPanic_of_ok (core_mode_ok xs)) m args
+  · intro m args _; exact fnS_noPanic _ (fun xs => noPanic_of_ok (core_stddev_ok xs)) m args
+  · intro m args _; exact fnS_noPanic _ (fun xs => noPanic_of_ok (core_all_ok xs)) m args
+  · intro m args _; exact fnS_noPanic _ (fun xs => noPanic_of_ok (core_any_ok xs)) m args
   · -- sublist2
-    intro m args hl _
+    intro m args hl
     split
     · exact noPanic_of_ok (core_sublist2_ok m _ _ (hl _ (by simp)))
     · exact noPanic_none
   · -- sublist3
-    intro m args hl hs
+    intro m args hl
     split
-    · exact noPanic_of_ok (core_sublist3_ok m _ _ _ (hl _ (by simp)) hs)
+    · exact noPanic_of_ok (core_sublist3_ok m _ _ _ (hl _ (by simp)))
     · exact noPanic_none
   · -- append
-    intro m args _ _
+    intro m args _
     split
     · exact noPanic_of_ok (core_append_ok _ _)
     · exact noPanic_none
-  · intro m args _ _; exact fnS_noPanic _ (fun xs => noPanic_of_ok (core_concatenate_ok xs)) m args
+  · intro m args _; exact fnS_noPanic _ (fun xs => noPanic_of_ok (core_concatenate_ok xs)) m args
   · -- insert_before
-    intro m args hl _
+    intro m args hl
     split
     · exact noPanic_of_ok (core_insert_before_ok m _ _ _ (hl _ (by simp)))
     · exact noPanic_none
   · -- remove
-    intro m args hl _
+    intro m args hl
     split
     · exact noPanic_of_ok (core_remove_ok m _ _ (hl _ (by simp)))
     · exact noPanic_none
-  · intro m args _ _; exact fn1_noPanic _ (fun a => noPanic_of_ok (core_reverse_ok a)) m args
-  · intro m args _ _; exact fn2_noPanic _ (fun a b => noPanic_of_ok (core_index_of_ok a b)) m args
-  · intro m args _ _; exact fnS_noPanic _ (fun xs => noPanic_of_ok (core_union_ok xs)) m args
-  · intro m args _ _; exact fn1_noPanic _ (fun a => noPanic_of_ok (core_distinct_values_ok a)) m args
-  · intro m args _ _; exact fn1_noPanic _ (fun a => noPanic_of_ok (core_flatten_ok a)) m args
-  · intro m args _ _; exact fn2_noPanic _ (fun a b => noPanic_of_ok (core_list_contains_ok a b)) m args
-  · intro m args _ _; exact fn2_noPanic _ (fun a b => noPanic_of_ok (core_get_value_ok a b)) m args
-  · intro m args _ _; exact fn1_noPanic _ (fun a => noPanic_of_ok (core_get_entries_ok a)) m args
-  · intro m args _ _; exact fn1_noPanic _ (fun a => noPanic_of_ok (core_not_ok a)) m args
-  · intro m args _ _; exact fn3_noPanic _ (fun a b c => noPanic_of_ok (core_number_ok a b c)) m args
-  · intro m args _ _; exact fn1_noPanic _ (fun a => map_ok_noPanic _) m args
+  · intro m args _; exact fn1_noPanic _ (fun a => noPanic_of_ok (core_reverse_ok a)) m args
+  · intro m args _; exact fn2_noPanic _ (fun a b => noPanic_of_ok (core_index_of_ok a b)) m args
+  · intro m args _; exact fnS_noPanic _ (fun xs => noPanic_of_ok (core_union_ok xs)) m args
+  · intro m args _; exact fn1_noPanic _ (fun a => noPanic_of_ok (core_distinct_values_ok a)) m args
+  · intro m args _; exact fn1_noPanic _ (fun a => noPanic_of_ok (core_flatten_ok a)) m args
+  · intro m args _; exact fn2_noPanic _ (fun a b => noPanic_of_ok (core_list_contains_ok a b)) m args
+  · intro m args _; exact fn2_noPanic _ (fun a b => noPanic_of_ok (core_get_value_ok a b)) m args
+  · intro m args _; exact fn1_noPanic _ (fun a => noPanic_of_ok (core_get_entries_ok a)) m args
+  · intro m args _; exact fn1_noPanic _ (fun a => noPanic_of_ok (core_not_ok a)) m args
+  · intro m args _; exact fn3_noPanic _ (fun a b c => noPanic_of_ok (core_number_ok a b c)) m args
+  · intro m args _; exact fn1_noPanic _ (fun a => map_ok_noPanic _) m args
   · intro x hx; cases hx
 
 end Bif
